@@ -102,8 +102,20 @@ def build_op(spec, env):
         if "scalar" in p:
             re, im = p["scalar"]
             mult = complex(re, im) if im != 0 else float(re)
-            if mult == 1.0:
+            st_ = p.get("scalar_type", "python")
+            if mult == 1.0 and st_ == "python":
                 mult = 1
+            elif re == int(re) and im == 0 and st_ == "python" and re in (0, 2):
+                mult = int(re)
+            elif st_ == "np64":
+                mult = np.complex128(mult) if im != 0 else np.float64(mult)
+            elif st_ == "np32":
+                mult = np.complex64(mult) if im != 0 else np.float32(mult)
+                env.kinds.add("c64")
+            elif st_ == "zero_d":
+                mult = np.array(mult)
+                env.ledger.own("param%d" % env.nparams, mult)
+                env.nparams += 1
         else:
             mult = A(p["mult"])
         return L.Multiply(ish, mult, conj=p.get("conj", False))
